@@ -10,6 +10,7 @@ import (
 	"math/rand"
 	"os"
 	"strconv"
+	"strings"
 	"sync"
 	"sync/atomic"
 	"testing"
@@ -335,6 +336,18 @@ func TestConcurrent(t *testing.T) {
 				txt := d.Render(&gen.Layout{R: r, Wild: i%2 == 0, Comments: true})
 				if i%5 == 4 {
 					txt = gen.Mutate(r, txt)
+				}
+				if i%2 == 1 {
+					// a document the LISTENER rejects (relation defined twice): its error travels through the parser's
+					// error listeners during the tree walk
+					lines := strings.Split(txt, "\n")
+					for k, ln := range lines {
+						if strings.Contains(ln, "define ") {
+							lines = append(lines[:k+1], append([]string{ln}, lines[k+1:]...)...)
+							break
+						}
+					}
+					txt = strings.Join(lines, "\n")
 				}
 				texts = append(texts, txt)
 				inputs[txt] = true
